@@ -287,7 +287,8 @@ func runC06Fault(cfg Cfg, keys []string, ops []Op, res *TaskResult) *Violation {
 
 // ---- C18 -------------------------------------------------------------------------------------------
 
-var c18Keys = []string{"a", "\x80\x01", "\xff\xff\xff\xff", string(patternBytes(300, 11))}
+// (the last two end in zero bytes - little-endian counters, fixed-width integers: nothing may treat them as padding)
+var c18Keys = []string{"a", "\x80\x01", "\xff\xff\xff\xff", string(patternBytes(300, 11)), "k\x00\x00", "\x00"}
 
 func c18Alphabet(c Cfg) []Op {
 	var a []Op
